@@ -89,8 +89,8 @@ theorem C13_err_iff (respond : Respond σ) (fuel : Nat) (sink : Sink σ) (m : Mu
       simp only [faultFreeFile, hf, Bool.false_eq_true, if_false]
       have hw : (m.w.finalize m.width m.height m.md m.fast).1.bytesWritten = m.w.bytesWritten := by
         unfold Writer.finalize
-        simp only [hfin, Bool.false_eq_true, if_false]
-        split <;> rfl
+        repeat' split
+        all_goals rfl
       rw [hw, show r.2.2 = _ from hcnt]
       simp [List.length_flatten]
 
@@ -102,9 +102,8 @@ theorem C13_after (w : Writer) (width height : Nat) (md : Option Metadata) (fast
     (∃ msg, (w1.finalize width height md fast).2.res = .ioErr msg) := by
   have h1 : (w.finalize width height md fast).1.finalized = true := by
     unfold Writer.finalize
-    split
-    · next h => simpa using h
-    · split <;> rfl
+    repeat' split
+    all_goals (first | rfl | (next h => simpa using h) | assumption)
   have key : ∀ (v : Writer), v.finalized = true →
       (v.finalize width height md fast).2 = ⟨[], .ioErr "mp4 writer already finalised"⟩ := by
     intro v hv; simp [Writer.finalize, hv]
